@@ -1216,26 +1216,17 @@ fn get_nonterminals_resolution_order(
     let mut result: Vec<Ustr> = Default::default();
     let mut path: Vec<(Ustr, HumanSpan)> = Default::default();
 
+    // Search from the definitions nobody depends on first, then from whatever is still
+    // unvisited: such definitions can only be reached from a cycle.
     let not_depended_on_vars = get_not_depended_on_nonterminals(&dependency_graph);
-    if not_depended_on_vars.is_empty() {
-        // Take any vertex and compute a sample cycle to illustrate to the user
-        let any_vertex = dependency_graph.keys().next().unwrap();
-        path.push((
-            *any_vertex,
-            nonterminal_definitions.get(any_vertex).unwrap().lhs_span,
-        ));
-        traverse_nonterminal_dependencies_dfs(
-            *any_vertex,
-            &dependency_graph,
-            &mut path,
-            &mut visited,
-            &mut result,
-        )?;
-        unreachable!();
-    }
-
-    for vertex in not_depended_on_vars {
-        debug_assert!(!visited.contains(&vertex));
+    let roots: Vec<Ustr> = not_depended_on_vars
+        .into_iter()
+        .chain(dependency_graph.keys().copied())
+        .collect();
+    for vertex in roots {
+        if visited.contains(&vertex) {
+            continue;
+        }
         path.push((
             vertex,
             nonterminal_definitions.get(&vertex).unwrap().lhs_span,
